@@ -202,10 +202,10 @@ def expected(spec):
                     attrs['LONG-NAME'] = {'count': 1, 'rc': 20, 'units': '', 'vals': ['t' + hx(o['name'])]}
             if o['kind'] in ('parameter', 'computation'):
                 a = o['attrs'].get('values')
-                if a is not None and isinstance(a['v'], list) and not flat(a['v']) and attrs['DIMENSION'] is None:
+                if a is not None and isinstance(a['v'], (list, tuple)) and not flat(a['v']) and attrs['DIMENSION'] is None:
                     attrs['DIMENSION'] = 'ANY'       # no values: a dimension is meaningless either way
-                if a is not None and flat(a['v'] if isinstance(a['v'], list) else [a['v']]) and attrs['DIMENSION'] is None:
-                    v = a['v'] if isinstance(a['v'], list) else [a['v']]
+                if a is not None and flat(a['v'] if isinstance(a['v'], (list, tuple)) else [a['v']]) and attrs['DIMENSION'] is None:
+                    v = a['v'] if isinstance(a['v'], (list, tuple)) else [a['v']]
                     shape = list(np.array(v).shape[1:])
                     shape = shape or [1]
                     attrs['DIMENSION'] = {'count': len(shape), 'rc': 18, 'units': '', 'vals': ['i%d' % d for d in shape]}
@@ -261,7 +261,7 @@ def expected(spec):
             E['objects'][(ident['set_type'], ident['set_name'], ident['origin'], ident['copy'], ident['name'])] = attrs
             E['order'].append((ident['set_type'], ident['set_name'], ident['origin'], ident['copy'], ident['name']))
         for (nfi, payload) in lf['noformat']:
-            E['noformat'].append((sim.ident[(li, nfi)], payload if isinstance(payload, bytes) else payload.encode('ascii')))
+            E['noformat'].append((sim.ident[(li, nfi)], bytes(payload) if isinstance(payload, (bytes, bytearray)) else payload.encode('ascii')))
         E['default_origin'] = sim.lf_default_origin[li]
         out.append(E)
     return sim, out
